@@ -5,16 +5,25 @@ From OSS Require Export theories.Base theories.NatTimer.
 Open Scope Z_scope.
 
 (* after each op: the deadline currently set on the socket (0 = never set), relative ns *)
-Record case := { c_T : Z; c_ops : list top; c_obs : list Z }.
-Definition tol : Z := 40 * 1000000.
+(* each observation comes with its own tolerance: 5 ms plus the longest time any call so far took
+   between the harness reading the clock before it and after it (the implementation reads the
+   clock somewhere in between; on a busy machine that window can be long) *)
+Record case := { c_T : Z; c_ops : list top; c_obs : list (Z * Z) }.
 
 Fixpoint run (T : Z) (t : timer) (ops : list top) : list Z :=
   match ops with
   | [] => []
   | o :: r => let t' := tstep T t o in sock_dl t' :: run T t' r
   end.
-Definition close (a b : Z) : bool := if (a =? 0) || (b =? 0) then a =? b else Z.abs (a - b) <=? tol.
-Definition check_case (c : case) : bool := list_eqb close (run (c_T c) timer0 (c_ops c)) (c_obs c).
+Definition close (a : Z) (bt : Z * Z) : bool :=
+  let '(b, tol) := bt in if (a =? 0) || (b =? 0) then a =? b else Z.abs (a - b) <=? tol.
+Fixpoint all_close (ms : list Z) (os : list (Z * Z)) : bool :=
+  match ms, os with
+  | [], [] => true
+  | m :: mr, o :: or => close m o && all_close mr or
+  | _, _ => false
+  end.
+Definition check_case (c : case) : bool := all_close (run (c_T c) timer0 (c_ops c)) (c_obs c).
 Definition model_obs (c : case) := run (c_T c) timer0 (c_ops c).
 
 Fixpoint mismatches_from (i : nat) (cs : list case) : list nat :=
